@@ -803,11 +803,62 @@ def emit_to_str(funcs):
     return "\n".join(lines)
 
 
+def emit_rust(consts_list, structs, to_str, sizes):
+    """Rust source compiled into the harness: lets it print, from the *compiled* crate, everything
+    the translator extracted from the *source* (values, layouts, to_str outputs)."""
+    L = ["// GENERATED by /verif/translator/translate.py — do not edit.",
+         "#![allow(dead_code, clippy::all)]",
+         "pub const ABI_CONSTS: &[(&str, i128)] = &["]
+    for name, ty, v, pub in consts_list:
+        if ty in INT_TYPES and pub:
+            L.append('    ("%s", elf::abi::%s as i128),' % (name, name))
+    L.append("];")
+    L.append("pub fn cstructs() -> Vec<(&'static str, usize, Vec<(&'static str, usize)>)> {")
+    L.append("    vec![")
+    for name, fields, fname in structs:
+        mod = fname[:-3]
+        fs = ", ".join('("%s", core::mem::offset_of!(elf::%s::%s, %s))' % (fn, mod, name, fn) for fn, _ in fields)
+        L.append('        ("%s", core::mem::size_of::<elf::%s::%s>(), vec![%s]),' % (name, mod, name, fs))
+    L.append("    ]")
+    L.append("}")
+    L.append("pub fn call_to_str(name: &str, v: i128) -> Option<Option<&'static str>> {")
+    L.append("    match name {")
+    rng = {"u8": (0, 255), "u16": (0, 65535), "u32": (0, 2**32 - 1), "u64": (0, 2**64 - 1),
+           "i64": (-2**63, 2**63 - 1), "i32": (-2**31, 2**31 - 1)}
+    for f in to_str:
+        if f["kind"] != "to_str":
+            continue
+        lo, hi = rng[f["argty"]]
+        L.append('        "%s" => if v >= %d && v <= %d { Some(elf::to_str::%s(v as %s)) } else { None },'
+                 % (f["name"], lo, hi, f["name"], f["argty"]))
+    L.append("        _ => None,")
+    L.append("    }")
+    L.append("}")
+    L.append("pub fn call_to_string(name: &str, v: i128) -> Option<String> {")
+    L.append("    match name {")
+    for f in to_str:
+        if f["kind"] != "to_string":
+            continue
+        lo, hi = rng[f["argty"]]
+        L.append('        "%s" => if v >= %d && v <= %d { Some(elf::to_str::%s(v as %s)) } else { None },'
+                 % (f["name"], lo, hi, f["name"], f["argty"]))
+    L.append("        _ => None,")
+    L.append("    }")
+    L.append("}")
+    L.append("pub const TO_STR_FUNCS: &[(&str, &str)] = &[")
+    for f in to_str:
+        if f["kind"] in ("to_str", "to_string"):
+            L.append('    ("%s", "%s"),' % (f["name"], f["argty"]))
+    L.append("];")
+    return "\n".join(L) + "\n"
+
+
 def main():
     ap = argparse.ArgumentParser()
     ap.add_argument("--repo", default="/repo")
     ap.add_argument("--out", default="/verif/lean/ElfVerif/Generated")
     ap.add_argument("--json", default=None)
+    ap.add_argument("--rust", default=None, help="write the harness's generated.rs (compiled-crate cross-check)")
     args = ap.parse_args()
     os.makedirs(args.out, exist_ok=True)
     try:
@@ -847,6 +898,8 @@ def main():
     }
     if args.json:
         write_if_changed(args.json, json.dumps(dump, indent=1, sort_keys=True))
+    if args.rust:
+        write_if_changed(args.rust, emit_rust(consts_list, structs, to_str, sizes))
     print("translated: %d consts, %d parse programs, %d C structs, %d to_str functions; rewrote %s"
           % (len(consts_list), 2 * (len(progs) + 1), len(structs), len(to_str), changed or "nothing"))
 
